@@ -310,9 +310,9 @@ def run(ck):
     ck.log("build done at %.1fs" % (time.time() - ck.t0))
     c = C03(ck)
     rng = ck.rng
-    budget = ck.n(105, 900)
+    budget = ck.n(90, 840)
     t0 = time.time()
-    n_valid, n_tmpl, n_mut = ck.n(120, 1500), ck.n(420, 5000), ck.n(160, 2500)
+    n_valid, n_tmpl, n_mut = ck.n(250, 4000), ck.n(1000, 12000), ck.n(350, 6000)
     try:
         # interleave the three streams so that a time cut keeps all of them populated
         k = 0
